@@ -487,3 +487,10 @@ mod tests {
         assert_eq!(LexerMode::default(), LexerMode::Default);
     }
 }
+
+#[cfg(kani)]
+pub(crate) mod verif {
+    #[allow(clippy::wildcard_imports)]
+    use super::*;
+    include!(concat!(env!("SAS_LEXER_VERIF_DIR"), "/harness/lexer_mode.rs"));
+}
